@@ -258,10 +258,16 @@ Fixpoint replay_width (vals : avals) (cands : list state) (sc : list (stim * obs
       end
   end.
 
+(* "Callers never hang": result -9 of a stimulus (no other result is negative below -3; error tokens are >= 0) means that the API call it made (Errors, Dequeue, SetPriority,
+   ResizeQueueLength, Stop, Break) had not returned at a quiescent moment, i.e. never returns.  No call of the model
+   blocks (every environment label except Enqueue's hand-over is a single step), so this is a violation by itself, with
+   the script up to that stimulus as the failing input. *)
+Definition mon_nohang (c : wcase) : bool := forallb (fun so => negb (o_res (snd so) =? -9)%Z) (c_script c).
+
 (* generic verdict (the per-property modules CorrC04 ... refine it with their monitors):
    0 = the implementation's observations are among the model's; 2 = they are not *)
 Definition case := wcase.
-Definition verdict (c : case) : nat := if replay_ok c then 0 else 2.
+Definition verdict (c : case) : nat := if negb (mon_nohang c) then 1 else if replay_ok c then 0 else 2.
 Definition mismatches (cs : list case) : list (nat * nat) := collect verdict 0 cs.
 
 (* Classification of a mismatch for a property whose observables are selected by [rel]:
